@@ -38,8 +38,70 @@ class Suite:
         self.name, self.imports, self.chk, self.cases, self.shard, self.note = name, imports, chk, cases, shard, note
 
 
+class _Merged:
+    """a property module plus its add-on modules props/<pid>_x_*.py (extra Props files, generators,
+    suites, findings classification) merged into one object with the same interface"""
+
+    def __init__(self, base, extras):
+        self._base, self._extras = base, extras
+        for k in dir(base):
+            if not k.startswith("__"):
+                setattr(self, k, getattr(base, k))
+        allm = [base] + extras
+        self.GENERATORS = sorted(set(g for m in allm for g in getattr(m, "GENERATORS", [])))
+        self.PROP_FILES = [f for m in allm for f in (getattr(m, "PROP_FILES", None) or
+                                                      ([m.PROP_FILE] if hasattr(m, "PROP_FILE") else []))]
+        self.PROP_FILE = self.PROP_FILES[0]
+        self.CASE_DEPS = sorted(set(d for m in allm for d in getattr(m, "CASE_DEPS", [])))
+        self.TRUSTED = [t for m in allm for t in getattr(m, "TRUSTED", [])]
+        self.ASSUMPTIONS = [t for m in allm for t in getattr(m, "ASSUMPTIONS", [])]
+
+    def suites(self, tier):
+        return [s for m in [self._base] + self._extras for s in m.suites(tier)]
+
+    def classify(self, suite, desc):
+        for m in [self._base] + self._extras:
+            r = m.classify(suite, desc) if hasattr(m, "classify") else None
+            if r is not None:
+                return r
+        return None
+
+    def replay_finding(self, f):
+        for m in [self._base] + self._extras:
+            r = m.replay_finding(f) if hasattr(m, "replay_finding") else None
+            if r is not None:
+                return r
+        return None
+
+    def replay_case(self, suite, desc):
+        for m in [self._base] + self._extras:
+            if hasattr(m, "replay_case"):
+                r = m.replay_case(suite, desc)
+                if r is not None:
+                    return r
+        return True
+
+    def extra_checks(self, tier):
+        out = {}
+        for m in [self._base] + self._extras:
+            if hasattr(m, "extra_checks"):
+                out.update(m.extra_checks(tier) or {})
+        return out
+
+    def shrink(self, suite, desc):
+        for m in [self._base] + self._extras:
+            if hasattr(m, "shrink"):
+                r = m.shrink(suite, desc)
+                if r is not None:
+                    return r
+        return None
+
+
 def load_prop(pid):
-    return importlib.import_module("props." + pid.lower())
+    base = importlib.import_module("props." + pid.lower())
+    extras = [importlib.import_module("props." + os.path.basename(p)[:-3])
+              for p in sorted(glob.glob(os.path.join(VERIF, "props", pid.lower() + "_x_*.py")))]
+    return _Merged(base, extras) if extras else base
 
 
 def load_findings(pid):
